@@ -527,7 +527,11 @@ func (c *V1) Do(op Op) (out Outcome) {
 		}
 		return o
 	case OpTransact:
-		_, err := c.callTransactWriteItems(&v1ddb.TransactWriteItemsInput{})
+		tin := &v1ddb.TransactWriteItemsInput{ClientRequestToken: strp(op.Token)}
+		if op.Table != "" {
+			tin.TransactItems = []*v1ddb.TransactWriteItem{{Put: &v1ddb.Put{TableName: aws.String(op.Table), Item: ItemToV1(op.Item)}}}
+		}
+		_, err := c.callTransactWriteItems(tin)
 		return fin(err)
 	case OpCreateTable:
 		res, err := c.callCreateTable(v1CreateInput(op.Spec))
